@@ -488,10 +488,18 @@ impl<'a, 'src> ExpressionParser<'a, 'src>
 	
 	fn parse_parenthesized(&mut self) -> Result<expr::Expr, ()>
 	{
-		self.walker.expect(self.report, syntax::TokenKind::ParenOpen)?;
+		let tk_open_span = self.walker
+			.expect(self.report, syntax::TokenKind::ParenOpen)?
+			.span;
+
 		let expr = self.parse_expr()?;
-		self.walker.expect(self.report, syntax::TokenKind::ParenClose)?;
-		Ok(expr)
+
+		let tk_close_span = self.walker
+			.expect(self.report, syntax::TokenKind::ParenClose)?
+			.span;
+
+		// The parentheses are part of the expression's source text
+		Ok(expr.with_span(tk_open_span.join(tk_close_span)))
 	}
 	
 	
